@@ -69,6 +69,11 @@ uint64_t hashObsAsSent(const lib::Obs& o)
     return h;
 }
 
+static uint64_t obsDigest(const lib::Obs& o);
+static uint64_t obsDigestPublic(const lib::Obs& o)
+{
+    return obsDigest(o);
+}
 static uint64_t obsDigest(const lib::Obs& o)
 {
     uint64_t h = hashObsAsSent(o);
@@ -244,6 +249,9 @@ void World::run()
                 break;
             case OP_PROBE:
                 opProbe(it);
+                break;
+            case OP_STATUPD:
+                opStatUpd(it);
                 break;
             default:
                 break;
@@ -1019,6 +1027,58 @@ void World::opStatus(const Item& op)
             break;
     }
     ev(0x57A7);
+}
+
+void World::opStatUpd(const Item& op)
+{
+    if (!statusEnabled)
+        return;
+    const int kind = static_cast<int>(op.get("kind", wire::K_IFSTAT));
+    uint8_t mt = 3, pt = 2;
+    wire::typeOfKind(static_cast<wire::Kind>(kind), mt, pt);
+    if (kind == wire::K_GENERIC)
+    {
+        mt = static_cast<uint8_t>(op.get("mtype", 3));
+        pt = static_cast<uint8_t>(op.get("ptype", 3));
+        if (mt == 0)
+            mt = 3;
+        if (pt == 0)
+            pt = 3;
+        if (wire::kindOf(mt, pt) != wire::K_GENERIC)
+            pt = 0x20;
+    }
+    Bytes body = makePayload(kind, static_cast<size_t>(std::max<int64_t>(1, op.get("len", 40))), static_cast<uint32_t>(op.get("id", 1)));
+    if (kind == wire::K_IFSTAT && op.has("pifid") && body.size() >= 4)
+        wire::wr32(body.data(), static_cast<uint32_t>(op.get("pifid")));
+    // non-canonical but harmless content: e.g. an interface status byte above 2, a non-zero reserved byte
+    // (only inside the fixed part: the inner lengths stay consistent, the typed accessors of the stored copy stay in bounds)
+    const size_t fixedPart = std::max<size_t>(5, std::min(body.size(), wire::fixedSize(static_cast<wire::Kind>(kind))));
+    if (op.has("p1o") && body.size() > 4 && kind != wire::K_GENERIC)
+        body[4 + static_cast<size_t>(std::max<int64_t>(0, op.get("p1o"))) % (fixedPart - 4)] = static_cast<uint8_t>(op.get("p1v"));
+    lib::MsgSpec sp;
+    sp.version = 1;
+    sp.mtype = mt;
+    sp.ptype = pt;
+    sp.ts = static_cast<uint64_t>(op.get("ts", 0));
+    sp.id32 = static_cast<uint32_t>(op.get("ifid", 0));
+    sp.flags = static_cast<uint8_t>(op.get("flags", 0)) & static_cast<uint8_t>(~wire::FLAG_ERR_IN_PAYLOAD);
+    sp.build = op.get("build", 2) == 1 ? 2 : static_cast<int>(op.get("build", 2));  // 0 generic Payload, 2 typed class (never the parsing constructor)
+    sp.payload = body.data();
+    sp.len = body.size();
+    sp.junk = mix64(static_cast<uint64_t>(op.get("id", 1)) * 77 + 1);
+    const uint16_t dev = static_cast<uint16_t>(op.get("dev", 1));
+    lib::PacketRef ref = lib::makePacket(sp, dev, static_cast<uint8_t>(op.get("stream", 0)));
+    lib::Obs o = lib::observe(ref, false);
+    devAlphabet.insert(dev);
+    if (model::RefStatus::isIf(o) && o.payload.size() >= 4)
+        ifAlphabet.insert(wire::rd32(o.payload.data()));
+    stat->update(ref);
+    res.apiCalls++;
+    refStat.update(o);
+    probe("status-update-with-api-built-packet");
+    ev(obsDigestPublic(o));
+    if (is("C16"))
+        compareStatus("update(api-built packet)");
 }
 
 void World::opNoise(const Item& op)
